@@ -79,9 +79,27 @@ func mask(w int) uint64 {
 	return (uint64(1) << uint(w)) - 1
 }
 
+var smallConsts = func() map[int]*[512]*Term {
+	m := map[int]*[512]*Term{}
+	for _, w := range []int{8, 16, 32, 64} {
+		var a [512]*Term
+		for v := range a {
+			a[v] = &Term{Op: "const", W: w, C: uint64(v), id: atomic.AddInt64(&termID, 1)}
+		}
+		m[w] = &a
+	}
+	return m
+}()
+
 func BV(w int, v uint64) *Term {
+	v &= mask(w)
+	if v < 512 {
+		if a := smallConsts[w]; a != nil {
+			return a[v]
+		}
+	}
 	t := newTerm("const", w)
-	t.C = v & mask(w)
+	t.C = v
 	return t
 }
 
